@@ -308,17 +308,42 @@ fn other_value(v: &GVal) -> GVal {
     }
 }
 
+/// A value of the same legacy property that `PropertyMigration::perform` rejects, if there is one.
+fn rejected_value(b: &MigCase) -> Option<GVal> {
+    let view = dbview::resolve(&b.class, &b.legacy)?;
+    let Ty::Enum(e) = &view.canonical_ty else { return None };
+    let mut items = dbview::enum_items(e);
+    items.sort();
+    // not always the same one: picked by the value under test
+    let start = match &b.value {
+        GVal::Enum(x) => *x as usize,
+        _ => 0,
+    };
+    let rejected: Vec<u32> = items.into_iter().filter(|i| oracle::migrate_value(&b.class, &view, &GVal::Enum(*i)).is_none()).collect();
+    if rejected.is_empty() {
+        None
+    } else {
+        Some(GVal::Enum(rejected[start % rejected.len()]))
+    }
+}
+
 fn context_forest(c: &CtxCase, new_name: &str, target_ty: &Ty) -> GForest {
     let b = &c.base;
     let m = forest_of(b, new_name).nodes.remove(0);
     let node = |parent: Option<usize>, class: &str, name: &str, props: Vec<(String, GVal)>| GNode { parent, class: class.to_string(), name: name.to_string(), props };
     let legacy_other = (b.legacy.clone(), other_value(&b.value));
     let explicit_other = (new_name.to_string(), explicit_for(target_ty, 5));
-    let mut nodes = match c.context % 4 {
+    let mut nodes = match c.context % 5 {
         0 => vec![node(None, &b.class, "parent", vec![legacy_other]), GNode { parent: Some(0), ..m }, node(Some(0), &b.class, "sibling", vec![])],
         1 => {
             let oc = c.other_class.clone().unwrap_or_else(|| b.class.clone());
             vec![node(None, &oc, "before", vec![explicit_other]), GNode { parent: None, ..m }, node(None, &oc, "after", vec![legacy_other])]
+        }
+        4 => {
+            // same-class siblings, one before and one after, whose legacy value the migration rejects
+            // (the items recorded as an open finding); the instance under test migrates all the same
+            let rejected = (b.legacy.clone(), rejected_value(b).unwrap_or_else(|| other_value(&b.value)));
+            vec![node(None, &b.class, "before", vec![rejected.clone()]), GNode { parent: None, ..m }, node(None, &b.class, "after", vec![rejected])]
         }
         2 => vec![
             node(None, "Folder", "top", vec![]),
@@ -374,7 +399,7 @@ fn context_body(c: &CtxCase, ctx: &mut CaseCtx) -> PropResult {
         ctx.excluded("value the migration rejects (open finding, probed by the migrations sub-check)");
         return Ok(());
     }
-    ctx.label(["context:same_class_parent_migrates", "context:other_class_sets_new_property", "context:nested_under_both_spellings", "context:between_same_class_siblings"][(c.context % 4) as usize]);
+    ctx.label(["context:same_class_parent_migrates", "context:other_class_sets_new_property", "context:nested_under_both_spellings", "context:between_same_class_siblings", "context:between_siblings_whose_value_is_rejected"][(c.context % 5) as usize]);
     ctx.nontrivial();
     let new_name = target.roundtrip.clone();
     let legacy_content = matches!(b.value, GVal::ContentId(_)) && c.context % 2 == 1;
@@ -382,18 +407,34 @@ fn context_body(c: &CtxCase, ctx: &mut CaseCtx) -> PropResult {
     let inside = forest_paths(&context_forest(c, &new_name, &target.canonical_ty), legacy_content);
     // a binary file has one column per class: an instance cannot lack a column a same-class instance
     // has, so "legacy only" next to a same-class carrier of the new property cannot be written down
-    let same_class_carrier = match c.context % 4 {
+    let same_class_carrier = match c.context % 5 {
         2 | 3 => true,
         1 => c.other_class.as_deref().map(|o| o == b.class).unwrap_or(true),
         _ => false,
     };
-    for ((pname, a), (_, i)) in alone.iter().zip(inside.iter()) {
+    // what a file holding only a rejected sibling does is the open finding's business, not this check's
+    let sibling_alone = if c.context % 5 == 4 {
+        let mut only = context_forest(c, &new_name, &target.canonical_ty);
+        only.nodes.truncate(1);
+        only.nodes[0].name = "m".into();
+        only.roots = vec![0];
+        Some(forest_paths(&only, legacy_content))
+    } else {
+        None
+    };
+    for (k, ((pname, a), (_, i))) in alone.iter().zip(inside.iter()).enumerate() {
         let Ok(a) = a else { continue };
+        if let Some(s) = &sibling_alone {
+            if s[k].1.is_err() {
+                ctx.excluded("path fails for the rejected sibling alone");
+                continue;
+            }
+        }
         if *pname == "read-binary" && same_class_carrier && b.explicit.is_none() {
             continue;
         }
         match i {
-            Err(e) => fail!(format!("c15:context:path-fails:{pname}"), "{}.{} = {:?} migrates alone through {pname}, but not in context {}: {e}", b.class, b.legacy, b.value, c.context % 4),
+            Err(e) => fail!(format!("c15:context:path-fails:{pname}"), "{}.{} = {:?} migrates alone through {pname}, but not in context {}: {e}", b.class, b.legacy, b.value, c.context % 5),
             Ok(i) => ensure!(
                 i == a,
                 format!("c15:context:{pname}"),
@@ -403,7 +444,7 @@ fn context_body(c: &CtxCase, ctx: &mut CaseCtx) -> PropResult {
                 b.value,
                 b.explicit,
                 a,
-                c.context % 4,
+                c.context % 5,
                 i
             ),
         }
@@ -501,7 +542,8 @@ fn context_cases(ctx: &Ctx) -> Vec<CtxCase> {
         }
         let Some(view) = dbview::resolve(&b.class, &b.legacy) else { continue };
         let others: Vec<String> = inheritors(&view.declared_in).into_iter().filter(|c| *c != b.class).collect();
-        for context in 0..4u8 {
+        let with_rejected = rejected_value(b).is_some();
+        for context in 0..if with_rejected { 5u8 } else { 4u8 } {
             let other_class = if others.is_empty() { None } else { Some(others[(i + context as usize) % others.len()].clone()) };
             out.push(CtxCase { base: b.clone(), context, other_class });
         }
